@@ -208,7 +208,12 @@ def _events(tid: int, sink: list[dict], src: str) -> list[dict]:
             continue
         code = ev["code"]
         if code not in ABSTRACT or ev["lineno"] is None:
-            raise core.MachineryError(f"realisation raised unexpected diagnostic {ev} for\n{src}")
+            # a diagnostic the file does not have by construction (never seen on the unchanged tree): TLC judges it --
+            # drift if it stays invisible, a violation ("changes no other diagnostic") if it is reported
+            if ev["decision"] != "caught":
+                lines.append({"tid": tid, "event": "ShowError", "code": "cx", "lineno": ev["lineno"] or 0,
+                              "decision": ev["decision"], "real": str(code)})
+            continue
         a = ABSTRACT[code]
         if ev["decision"] == "caught":
             lines.append({"tid": tid, "event": "Caught", "code": a, "lineno": ev["lineno"]})
@@ -222,9 +227,7 @@ def _events(tid: int, sink: list[dict], src: str) -> list[dict]:
 def _out(pairs, src: str) -> list[list]:
     out = []
     for code, lineno in pairs:
-        if code not in ABSTRACT:
-            raise core.MachineryError(f"realisation raised unexpected failure {code} for\n{src}")
-        out.append([ABSTRACT[code], lineno])
+        out.append([ABSTRACT.get(code, "cx"), lineno or 0])
     return out
 
 
